@@ -216,7 +216,9 @@ func ExplainGpos(fontInfo *sfnt.Font) []string {
 
 			case *gtab.Gpos2_2:
 				checkType(2)
-				ee.w.WriteString("\n\t")
+				if i == 0 {
+					ee.w.WriteString("\n\t")
+				}
 				ee.w.WriteRune('/')
 				ee.writeGlyphList(l.Cov.Glyphs())
 				ee.w.WriteRune('/')
@@ -272,8 +274,13 @@ func ExplainGpos(fontInfo *sfnt.Font) []string {
 			case *gtab.Gpos4_1:
 				checkType(4)
 				markGlyphs := l.MarkCov.Glyphs()
+				first := i > 0 // after " ||\n\t" we are already on a new line
 				for i, gid := range markGlyphs {
-					ee.w.WriteString("\n\tmark ")
+					if !first {
+						ee.w.WriteString("\n\t")
+					}
+					first = false
+					ee.w.WriteString("mark ")
 					ee.writeGlyph(gid)
 					ee.w.WriteRune(':')
 					rec := l.MarkArray[i]
@@ -283,7 +290,11 @@ func ExplainGpos(fontInfo *sfnt.Font) []string {
 
 				baseGlyphs := l.BaseCov.Glyphs()
 				for i, gid := range baseGlyphs {
-					ee.w.WriteString("\n\tbase ")
+					if !first {
+						ee.w.WriteString("\n\t")
+					}
+					first = false
+					ee.w.WriteString("base ")
 					ee.writeGlyph(gid)
 					ee.w.WriteRune(':')
 					anchors := l.BaseArray[i]
